@@ -118,7 +118,7 @@ Section Dec.
   Theorem extension_rejected f s o : decode icf f = Ok o -> s <> [] ->
     decode icf (f ++ s) = Err ParseBinaryError.
   Proof.
-    intros H Hs. unfold decode in *.
+    intros H Hs. unfold decode, decode_with in *.
     step H. destruct a as [b v]. rewrite (bin_version_app f s b v E). cbn [bind].
     (* version bytes *)
     assert (forall X (k : (N * N * N) * N -> res X) r,
